@@ -22,6 +22,7 @@ pub mod c18;
 pub mod c19;
 pub mod c20;
 pub mod decide;
+pub mod e2e;
 pub mod faultsim;
 pub mod c16;
 pub mod c17;
